@@ -4,7 +4,8 @@
 From Coq Require Import NArith List Bool Arith Lia.
 From CL Require Import Base.Sx Base.Res Base.Str Regex.Rx Regex.RxLemmas Model.Pattern Model.Matcher
   Proofs.MatcherSpec Proofs.MatcherSound Proofs.MatcherExpand Proofs.MatcherComplete
-  Proofs.MatcherFinal Proofs.PatternFuel Proofs.AndroidProofs.
+  Proofs.MatcherFinal Proofs.PatternFuel Proofs.AndroidProofs Proofs.MatcherUnique
+  Proofs.MatcherRooted Proofs.MatcherNested.
 Import ListNotations.
 
 (* A fully bound pattern (literals and bound variables only) expands to a path
@@ -146,3 +147,94 @@ Qed.
 Theorem C12_android_roundtrip_legacy_refuted : exists l,
   (do a <- to_android l; to_bcp47 a) = Ok (of_ascii [104;101]) /\ l <> of_ascii [104;101].
 Proof. exists (of_ascii [105;119]). split; [vm_compute; reflexivity|discriminate]. Qed.
+
+(* ---- rooted matchers (Proofs/MatcherRooted.v; how the root enters: see Properties/C11.v) ---- *)
+Theorem C12_expand_match_rooted : forall M, rooted_ok M -> simple (unroot M) -> compiles (unroot M) ->
+  Forall var_not_star (p_nodes (m_pat (unroot M))) -> fully_bound (unroot M) ->
+  exists path d, str_of M = Ok path /\ match_ M path = Ok (Some d) /\
+    forall name rep, In (NVar name rep) (p_nodes (m_pat M)) ->
+      exists v t, lookup name (m_env M) = Some v /\ value_text v = Some t /\
+                  lookup name d = Some (Some t).
+Proof. exact expand_match_rooted. Qed.
+
+Theorem C12_prefix_rooted : forall M path d pre, simple_rooted M ->
+  match_ M path = Ok (Some d) -> prefix M = Ok pre -> starts_with pre path = true.
+Proof. exact prefix_rooted. Qed.
+
+(* {base}/{locale}/f.ftl under the root "/x/gecko-strings (copy)" *)
+Example C12_expand_match_rooted_example : exists M,
+  mk_matcher (of_ascii [123;98;97;115;101;125;47;123;108;111;99;97;108;101;125;47;102;46;102;116;108])
+             [(of_ascii [108;111;99;97;108;101], of_ascii [100;101]); (of_ascii [98;97;115;101], of_ascii [108;49;48;110])]
+             (Some (of_ascii [47;120;47;103;101;99;107;111;45;115;116;114;105;110;103;115;32;40;99;111;112;121;41])) = Ok M /\
+  rooted_ok M /\ simple (unroot M) /\ compiles (unroot M) /\
+  Forall var_not_star (p_nodes (m_pat (unroot M))) /\ fully_bound (unroot M) /\
+  str_of M = Ok (of_ascii [47;120;47;103;101;99;107;111;45;115;116;114;105;110;103;115;32;40;99;111;112;121;41;47;108;49;48;110;47;100;101;47;102;46;102;116;108]) /\
+  prefix M = Ok (of_ascii [47;120;47;103;101;99;107;111;45;115;116;114;105;110;103;115;32;40;99;111;112;121;41;47;108;49;48;110;47;100;101;47;102;46;102;116;108]).
+Proof.
+  match goal with |- exists M, ?mk = Ok M /\ _ => destruct mk as [M|] eqn:E; [|vm_compute in E; discriminate] end.
+  exists M. vm_compute in E. inversion E; subst M. split; [reflexivity|].
+  split.
+  { split; [vm_compute; repeat constructor; simpl; intuition discriminate|].
+    simpl. split; [lia|]. eexists. eexists. eexists. split; [reflexivity|vm_compute; reflexivity]. }
+  split; [split; [vm_compute; reflexivity|split; [reflexivity|]]|].
+  { vm_compute. repeat constructor; simpl; intuition discriminate. }
+  split; [eexists; eexists; vm_compute; reflexivity|].
+  split; [vm_compute; repeat constructor; simpl; intros k H; inversion H|].
+  split; [vm_compute; reflexivity|]. split; vm_compute; reflexivity.
+Qed.
+
+(* ---- nested variable values (Proofs/MatcherNested.v) ----------------------------------------
+   Patterns of literals and variables whose values are again literals and variables, to
+   any depth ([nested_ok]).  The premise "expansion with raise_missing = True succeeds"
+   says that every variable at every depth has a value, i.e. no cycle is cut (a cut raises
+   MissingEnvironment there; termination itself is C12_expand_terminates).  If moreover the
+   regular expression compiles (no variable occurs twice, directly or through a value),
+   the matcher matches its own expansion and binds every variable of the pattern to that
+   variable's own expansion. *)
+Theorem C12_expand_match_nested : forall M path, nested_ok M -> compiles M ->
+  expand_pattern (m_env M) true (m_pat M) = Ok path ->
+  str_of M = Ok path /\
+  exists d, match_ M path = Ok (Some d) /\
+    forall name, In (NVar name false) (p_nodes (m_pat M)) ->
+      exists t, expand_node (expand_fuel (m_env M)) (m_env M) true (NVar name false) = Ok (IStr t) /\
+                lookup name d = Some (Some t).
+Proof. exact nested_expand_match. Qed.
+
+(* {l}browser/{file}.ftl with l = {l10n_base}/{locale}/, l10n_base = /src/l10n, locale = de,
+   file = menu *)
+Example C12_expand_match_nested_example : exists M d,
+  mk_matcher (of_ascii [123;108;125;98;114;111;119;115;101;114;47;123;102;105;108;101;125;46;102;116;108])
+             [(of_ascii [108], of_ascii [123;108;49;48;110;95;98;97;115;101;125;47;123;108;111;99;97;108;101;125;47]);
+              (of_ascii [108;49;48;110;95;98;97;115;101], of_ascii [47;115;114;99;47;108;49;48;110]);
+              (of_ascii [108;111;99;97;108;101], of_ascii [100;101]);
+              (of_ascii [102;105;108;101], of_ascii [109;101;110;117])] None = Ok M /\
+  nested_ok M /\ compiles M /\
+  expand_pattern (m_env M) true (m_pat M) = Ok (of_ascii [47;115;114;99;47;108;49;48;110;47;100;101;47;98;114;111;119;115;101;114;47;109;101;110;117;46;102;116;108]) /\
+  match_ M (of_ascii [47;115;114;99;47;108;49;48;110;47;100;101;47;98;114;111;119;115;101;114;47;109;101;110;117;46;102;116;108]) = Ok (Some d) /\
+  lookup (of_ascii [108]) d = Some (Some (of_ascii [47;115;114;99;47;108;49;48;110;47;100;101;47])) /\
+  lookup (of_ascii [108;111;99;97;108;101]) d = Some (Some (of_ascii [100;101])).
+Proof.
+  match goal with |- exists M d, ?mk = Ok M /\ _ => destruct mk as [M|] eqn:E; [|vm_compute in E; discriminate] end.
+  destruct (match_ M (of_ascii [47;115;114;99;47;108;49;48;110;47;100;101;47;98;114;111;119;115;101;114;47;109;101;110;117;46;102;116;108])) as [[d|]|] eqn:Em;
+    [|exfalso; vm_compute in E; inversion E; subst; vm_compute in Em; discriminate
+     |exfalso; vm_compute in E; inversion E; subst; vm_compute in Em; discriminate].
+  exists M, d. vm_compute in E. inversion E; subst M. clear E.
+  vm_compute in Em. inversion Em; subst d. clear Em.
+  split; [reflexivity|]. split; [split; [reflexivity|split; reflexivity]|].
+  split; [eexists; eexists; vm_compute; reflexivity|].
+  split; [vm_compute; reflexivity|]. split; [reflexivity|]. split; vm_compute; reflexivity.
+Qed.
+
+(* without the no-cycle premise the statement fails: a/{v} with v = {v}x expands to "a/"
+   (the cut), and matching raises (group v inside group v) *)
+Theorem C12_expand_match_nested_cycle_refuted : exists M,
+  mk_matcher (of_ascii [97;47;123;118;125]) [(of_ascii [118], of_ascii [123;118;125;120])] None = Ok M /\
+  nested_ok M /\ str_of M = Ok (of_ascii [97;47]) /\
+  expand_pattern (m_env M) true (m_pat M) = Raise MissingEnv /\
+  match_ M (of_ascii [97;47]) = Raise ReError.
+Proof.
+  match goal with |- exists M, ?mk = Ok M /\ _ => destruct mk as [M|] eqn:E; [|vm_compute in E; discriminate] end.
+  exists M. vm_compute in E. inversion E; subst M. split; [reflexivity|].
+  split; [split; [reflexivity|split; reflexivity]|].
+  split; [vm_compute; reflexivity|]. split; vm_compute; reflexivity.
+Qed.
